@@ -1392,7 +1392,10 @@ class XMLSchemaBase(XsdValidator, ElementPathMixin[Union[SchemaType, XsdElement]
 
         if context.identities is not identities:
             for identity, counter in context.identities.items():
-                identities[identity].counter.update(counter.counter)
+                if identity in identities:
+                    identities[identity].counter.update(counter.counter)
+                else:
+                    identities[identity] = counter
             context.identities = identities
 
         yield from self._validate_references(validation, context)
@@ -1406,8 +1409,14 @@ class XMLSchemaBase(XsdValidator, ElementPathMixin[Union[SchemaType, XsdElement]
                 yield context.validation_error(validation, self, msg, context.source.root)
 
         # Check still enabled key references (lazy validation cases)
-        for identity, counter in context.identities.items():
+        for identity, counter in list(context.identities.items()):
             if counter.enabled and isinstance(identity, XsdKeyref):
+                if isinstance(identity.refer, XsdIdentity) and \
+                        identity.refer not in context.identities:
+                    # The element that declares the referred key never occurred
+                    context.identities[identity.refer] = identity.refer.get_counter(
+                        context.source.root
+                    )
                 for error in cast(KeyrefCounter, counter).iter_errors(context.identities):
                     yield context.validation_error(validation, self, error, context.source.root)
 
